@@ -114,3 +114,96 @@ Proof.
     assert (ON : forall w c, OwedI d w c [] = 0) by (intros; unfold OwedI; rewrite (usum_ext NU _ (fun _ => 0)) by (intros; reflexivity); apply usum_zero).
     rewrite ON. simpl. destruct d; reflexivity.
 Qed.
+
+(* ---------- the conclusion ---------- *)
+Definition iclaim_of (d : bool) (rs : rstate) (p : position) : Z :=
+  match claimable_incentives rs (ps_id p) with Some (c, f) => pr_sel d c + pr_sel d f | None => 0 end.
+
+Lemma zsum_usum : forall n (f : nat -> position -> Z) P, zsum (fun p => usum n (fun u => f u p)) P = usum n (fun u => zsum (f u) P).
+Proof.
+  induction n as [|n IH]; intros f P; simpl.
+  - induction P; simpl; lia.
+  - rewrite zsum_plus, IH. reflexivity.
+Qed.
+Lemma remD_nonneg : forall d l, recs_ok l -> 0 <= remD d l.
+Proof.
+  induction l as [|r l IH]; intro H; simpl; [lia|]. inversion H as [|? ? [_ R0] HR]; subst. specialize (IH HR). destruct (den_match d r); lia.
+Qed.
+
+Lemma list_eq_dec_pos : forall (l : list position), {l = []} + {l <> []}.
+Proof. intros [|a l]; [left; reflexivity|right; discriminate]. Qed.
+
+Theorem inc_claims_covered : forall rs d K, PII rs -> PhiI d rs <= K * (Z.of_nat NU * P18) ->
+  (forall p, In p (s_pos (r_base rs)) -> claimable_incentives rs (ps_id p) <> None) ->
+  0 <= K -> (K + Z.of_nat (length (s_pos (r_base rs)))) * Z.of_nat NU < 2 * isc_of rs ->
+  zsum (iclaim_of d rs) (s_pos (r_base rs)) <= inc_bal d rs.
+Proof.
+  intros rs d K [RI [HIW FR]] HPhi HQ HK0 HK. pose proof RI as [I _]. pose proof P18_pos as HP.
+  pose proof HIW as [OK [Hi [LN [HPT HRM]]]].
+  set (P := s_pos (r_base rs)) in *. set (w := r_rw rs) in *. set (cur := p_tick (s_pool (r_base rs))) in *.
+  set (pl := p_liq (s_pool (r_base rs))) in *. set (now := s_time (r_base rs)) in *.
+  assert (HL : pl = sum_liq (f_range cur) P) by apply (inv_liq _ I).
+  assert (LP : forall p, In p P -> 0 < ps_liq p).
+  { intros p Hp. pose proof (inv_pos_ok _ I) as F. rewrite Forall_forall in F. destruct (F p Hp) as [_ [X _]]. exact X. }
+  assert (NUP : 0 <= Z.of_nat NU) by lia.
+  unfold PhiI, OwedInc, isc_of in HPhi, HK. fold w P in HPhi, HK. change (cur_tick rs) with cur in HPhi.
+  set (isc := rw_inc_scaling w) in *. set (bal := inc_bal d rs) in *.
+  (* every query brings the accumulators up to date in the same way *)
+  assert (QB : forall p, In p P -> exists w1, update_uptime w pl now = Some w1 /\
+            2 * (iclaim_of d rs p * isc * P18) <= 2 * usum NU (fun u => owedU u d w1 cur p) + Z.of_nat NU * P18).
+  { intros p Hp. pose proof (HQ p Hp) as NN. unfold iclaim_of. unfold claimable_incentives in NN |- *.
+    change (r_rw rs) with w in NN |- *.
+    rewrite (in_pos_get _ _ (inv_pos_sorted _ I) Hp) in NN |- *. cbv beta iota in NN |- *.
+    change (p_tick (s_pool (r_base rs))) with cur in NN |- *. change (p_liq (s_pool (r_base rs))) with pl in NN |- *. change (s_time (r_base rs)) with now in NN |- *.
+    destruct (prepare_claim_all_incentives w cur pl now (ps_lower p) (ps_upper p) (ps_id p) (ps_join p)) as [[[[w' col] forf] byup]|] eqn:E; [|congruence].
+    destruct (claim_query_bound d w cur pl now (ps_id p) (ps_join p) w' col forf byup P p E HIW HL (in_pos_get _ _ (inv_pos_sorted _ I) Hp) LP)
+      as [w1 [EU [B _]]].
+    exists w1. split; [exact EU|exact B]. }
+  destruct (list_eq_dec_pos P) as [EP|NE].
+  - rewrite EP in *. simpl. assert (ON : OwedI d w cur [] = 0) by (unfold OwedI; rewrite (usum_ext NU _ (fun _ => 0)) by (intros; reflexivity); apply usum_zero).
+    rewrite ON in HPhi. pose proof (remD_nonneg d _ OK) as R0. simpl length in HK. change (Z.of_nat 0) with 0 in HK. rewrite Z.add_0_r in HK.
+    destruct (Z_lt_le_dec bal 0) as [NEG|]; [exfalso|lia].
+    set (M := isc * P18). assert (MP : 0 < M) by (unfold M; nia).
+    assert (E1 : bal * isc * P18 = bal * M) by (unfold M; ring). rewrite E1 in HPhi.
+    assert (E2 : bal * M <= - M) by nia.
+    assert (E3 : K * (Z.of_nat NU * P18) < 2 * M) by (unfold M; nia).
+    set (r0 := remD d (rw_recs w)) in *. assert (0 <= r0 * isc) by nia. lia.
+  - destruct P as [|p0 P0] eqn:EP; [congruence|]. rewrite <- EP in *. assert (P0In : In p0 P) by (rewrite EP; left; reflexivity).
+    destruct (QB p0 P0In) as [w1 [EU _]].
+    destruct (stage_accrue cur w pl now w1 P d EU OK Hi LN HPT HRM HL) as [ACC [_ [_ [OK1 _]]]].
+    pose proof (remD_nonneg d _ OK1) as R1.
+    assert (SUM : forall l, (forall p, In p l -> In p P) ->
+              2 * (zsum (iclaim_of d rs) l * isc * P18) <= 2 * zsum (fun p => usum NU (fun u => owedU u d w1 cur p)) l + Z.of_nat (length l) * (Z.of_nat NU * P18)).
+    { induction l as [|a l IHl]; intro Hl; [simpl; lia|].
+      change (length (a :: l)) with (S (length l)). rewrite Nat2Z.inj_succ. cbn [zsum].
+      destruct (QB a (Hl a (or_introl eq_refl))) as [w1' [EU' Ba]]. rewrite EU in EU'. inversion EU'; subst w1'.
+      assert (Bl : forall p, In p l -> In p P) by (intros p X; apply Hl; right; exact X). specialize (IHl Bl).
+      set (ca := iclaim_of d rs a) in *. set (cl := zsum (iclaim_of d rs) l) in *.
+      replace (2 * ((ca + cl) * isc * P18)) with (2 * (ca * isc * P18) + 2 * (cl * isc * P18)) by ring.
+      unfold Z.succ. rewrite Z.mul_add_distr_r. lia. }
+    specialize (SUM P (fun p X => X)). rewrite zsum_usum in SUM.
+    change (usum NU (fun u => zsum (fun p => owedU u d w1 cur p) P)) with (OwedI d w1 cur P) in SUM. fold isc in ACC.
+    set (C := zsum (iclaim_of d rs) P) in *. set (n := Z.of_nat (length P)) in *. set (nu := Z.of_nat NU) in *.
+    set (o1 := OwedI d w1 cur P) in *. set (o0 := OwedI d w cur P) in *. set (r1 := remD d (rw_recs w1)) in *. set (r0 := remD d (rw_recs w)) in *.
+    assert (RI1 : 0 <= r1 * isc) by (clearbody r1 isc; nia).
+    assert (X : 2 * isc * P18 * (C - bal) <= (K + n) * nu * P18) by (clearbody C n nu o1 o0 r1 r0 bal isc; lia).
+    assert (Y : 2 * isc * (C - bal) <= (K + n) * nu) by (clearbody C n nu o1 o0 r1 r0 bal isc; nia).
+    clearbody C n nu o1 o0 r1 r0 bal isc. nia.
+Qed.
+
+(* TOTAL_CLAIMABLE_LE_PAID (incentives): in every state reachable from a fresh pool, whatever the history, the incentives all open
+   positions can claim - collected and forfeitable - are covered by the incentive account *)
+Theorem total_incentives_le_paid : forall sp spf ssc isc users t ops d, 0 < sp -> 0 <= spf <= 500000000000000000 -> 0 < isc ->
+  let rs0 := rinit sp spf ssc isc users t in
+  let rs := rrun rs0 ops in
+  (forall p, In p (s_pos (r_base rs)) -> claimable_incentives rs (ps_id p) <> None) ->
+  (hist_icost rs0 ops + Z.of_nat (length (s_pos (r_base rs)))) * Z.of_nat NU < 2 * isc ->
+  zsum (iclaim_of d rs) (s_pos (r_base rs)) <= inc_bal d rs.
+Proof.
+  intros sp spf ssc isc users t ops d Hsp Hspf Hisc rs0 rs HQ HK.
+  destruct (PII_init sp spf ssc isc users t Hsp Hspf Hisc) as [P0 F0].
+  destruct (inc_run ops rs0 d P0) as [A [B C]]. fold rs in A, B, C.
+  assert (IS0 : isc_of rs0 = isc) by reflexivity.
+  apply (inc_claims_covered rs d (hist_icost rs0 ops) A); [|exact HQ|apply hist_icost_nonneg|rewrite B, IS0; exact HK].
+  pose proof (F0 d) as F0d. fold rs0 in F0d. rewrite F0d in C. lia.
+Qed.
